@@ -18,7 +18,7 @@ PROFILES = {
     "stack": {"ranges", "soi", "stack", "recursion", "leak"},
     "full": {
         "ci", "ranges", "builtins", "unicode", "soi", "trivia", "atomic", "stack", "tags", "recursion",
-        "groups", "emptystr", "leak",
+        "groups", "emptystr", "leak", "wildtrivia",
     },
     "bait": {"ci", "ranges", "builtins", "unicode", "soi", "trivia", "atomic", "bait", "groups", "tags", "leak"},
 }
@@ -32,6 +32,8 @@ WS_BODIES = [
     ("alt", (("str", " "), ("str", "\n"))),
     ("range", " ", " "),
     ("id", "ws__"),
+    ("seq", (("str", " "), ("str", "\t"))),  # a blank that is not followed by a tab fails after consuming
+    ("seq", (("str", " "), ("opt", ("str", "\t")))),
 ]
 COMMENT_BODIES = [
     ("str", "#"),
@@ -39,6 +41,7 @@ COMMENT_BODIES = [
     ("seq", (("str", "#"), ("star", ("seq", (("not", ("id", "NEWLINE")), ("id", "ANY")))))),
     ("seq", (("str", "<"), ("star", ("range", "a", "b")), ("str", ">"))),
     ("seq", (("str", "/*"), ("str", "c"), ("str", "*/"))),
+    ("str", " #"),  # shares a prefix with WHITESPACE: pest skips WHITESPACE* first
 ]
 CHAR_SAMPLES = {
     "ANY": "ab1 Aé",
@@ -124,7 +127,7 @@ class Gen:
         if c == "str":
             return ("str", self.literal()), False
         if c == "ci":
-            return ("ci", r.choice(["a", "Ab", "b", "aB1"])), False
+            return ("ci", r.choice(["a", "Ab", "b", "aB1", "k", "s", "ks", "é"] if "unicode" in f else ["a", "Ab", "b", "aB1", "k"])), False
         if c == "range":
             return self.range_(), False
         if c == "char":
@@ -398,6 +401,25 @@ class Gen:
                     ex = ("alt", (("seq", (ref, ("str", "a"))), ex))
                 rules[i] = (nm, md, ex)
             rules = extra + rules if r.random() < 0.5 else rules + extra
+        if "wildtrivia" in self.f and r.random() < 0.12:
+            # trivia rules whose bodies produce pairs or touch the stack: the statements do not define what
+            # a parse yields then, but every execution mode must still agree (C01, C02, C06, C07, C16)
+            original = rules
+            rules = [x for x in rules if x[0] not in ("WHITESPACE", "COMMENT", "ws__")]
+            k = r.randrange(4)
+            if k == 0:
+                rules += [("COMMENT", "_", ("seq", (("id", "xw__"), ("str", "!")))), ("xw__", r.choice(["$", "!", ""]), ("str", "#"))]
+            elif k == 1:
+                rules += [("WHITESPACE", "_", ("push", ("str", " ")))]
+            elif k == 2:
+                rules += [("WHITESPACE", r.choice(["_", ""]), ("seq", (("str", " "), ("opt", ("id", "PEEK"))))),
+                          ("COMMENT", "_", ("seq", (("pushlit", "c"), ("str", "#"))))]
+            else:
+                rules += [("WHITESPACE", "", ("alt", (("id", "xw__"), ("str", "\t")))), ("xw__", "", ("str", " "))]
+            defined = {x[0] for x in rules}
+            if any(n[0] == "id" and n[1] in ("WHITESPACE", "COMMENT", "ws__") and n[1] not in defined
+                   for _, _, e in rules for n in walk(e)):
+                rules = original  # an explicit reference to a removed trivia rule: keep the ordinary ones
         return rules
 
 
@@ -419,6 +441,11 @@ def alphabet_of(rules) -> str:
             elif n[0] == "ci":
                 add(n[1].lower())
                 add(n[1].upper())
+                # characters that full Unicode case folding (but not pest's ASCII folding) maps onto ASCII
+                if "k" in n[1].lower():
+                    add("\u212a")
+                if "s" in n[1].lower():
+                    add("\u017f")
             elif n[0] == "range":
                 add(n[1])
                 add(n[2])
